@@ -216,7 +216,12 @@ func (c20) Run(c *Case, src *vs.Src) *Result {
 		r.Violate("hang", sigp+" not-ended "+reason, "run ended with %q, unfinished %v; first error %v", reason, unf, firstErr)
 		return r
 	}
-	prot := sconn.(*pa.ProtocolSwitchServerConn).ProtectedConn()
+	// which stack serves the connection: normally asked of the adapter; a listener that hands out a stack's
+	// connection directly has made its choice without looking at the first record
+	var prot interface{} = sconn
+	if sw, ok := sconn.(*pa.ProtocolSwitchServerConn); ok {
+		prot = sw.ProtectedConn()
+	}
 	kind := "none"
 	switch prot.(type) {
 	case *tlcp.Conn:
